@@ -1,5 +1,5 @@
 (* Properties/C02.v — require() selects the file the Node.js CommonJS resolution algorithm selects. *)
-From GN Require Import Common.Base Model.Paths Model.Require Spec.NodeResolve Proofs.ResolveProofs Gen.RequireGlue Model.ResolveSrc.
+From GN Require Import Common.Base Model.Paths Model.Require Spec.NodeResolve Proofs.ResolveProofs Proofs.RequireInv Proofs.RequireSelect Gen.RequireGlue Model.ResolveSrc.
 Open Scope Z_scope.
 
 (* for every file tree, every absolute requiring directory and every request — relative, absolute or bare — the probing
@@ -10,6 +10,47 @@ Theorem C02_selects_node_file : forall fs y x,
   rooted y = true -> no_double_nm (rev (segs y)) -> model_resolve fs y x = spec_resolve fs y x.
 Proof. exact model_resolve_is_node. Qed.
 Print Assumptions C02_selects_node_file.
+
+(* the caches do not change the answer: in every state reachable by any sequence of requires (any module graph, cycles,
+   failures, any spelling), a file-or-directory request that yields a module yields the module of the file the stateless
+   probing order selects for the request path, and "no module" is reported only when that order finds nothing. (Before request
+   paths got a map of their own — fix 0f7f2ed — require('./pkg') depended on an earlier require('./pkg/lib'); this theorem was
+   not provable.) *)
+Theorem C02_history_independent : forall fs nat_reg fuel calls d r st' x,
+  is_file_or_dir_path r = true ->
+  require_ fs nat_reg fuel (run_tops fs nat_reg fuel init_state calls) d r = (st', x) ->
+  let k := render (pjoin (if is_abs r then None else Some d) r) in
+  match x with
+  | ROk m => exists f, file_owner st' m = Some f /\ select fs (cands_file_or_dir fs (parse k)) = SFile f
+  | RNone => select fs (cands_file_or_dir fs (parse k)) = SNotFound
+  | _ => True
+  end.
+Proof. exact resolve_history_independent. Qed.
+Print Assumptions C02_history_independent.
+
+(* ... hence the Node.js file in every reachable state, for request paths in canonical form *)
+Theorem C02_node_file_in_every_state : forall fs nat_reg fuel calls d r st' m,
+  is_file_or_dir_path r = true -> rooted d = true -> no_double_nm (rev (segs d)) ->
+  (let p := pjoin (if is_abs r then None else Some d) r in parse (render p) = p) ->
+  require_ fs nat_reg fuel (run_tops fs nat_reg fuel init_state calls) d r = (st', ROk m) ->
+  exists f, file_owner st' m = Some f /\ spec_resolve fs d r = SFile f.
+Proof. exact resolve_is_node_in_every_state. Qed.
+Print Assumptions C02_node_file_in_every_state.
+
+(* non-vacuity: the history that used to go wrong. ./pkg has "main": "lib"; ./pkg/lib is a directory with its own package.json
+   ("main": "alt.js") and an index.js. After require('./pkg/lib') (-> alt.js), require('./pkg') still yields lib/index.js *)
+Example C02_history_nonvacuous :
+  let fs := [([47;97;112;112;47;112;107;103;47;112;97;99;107;97;103;101;46;106;115;111;110], FPkg (Some [108;105;98]));
+             ([47;97;112;112;47;112;107;103;47;108;105;98;47;112;97;99;107;97;103;101;46;106;115;111;110], FPkg (Some [97;108;116;46;106;115]));
+             ([47;97;112;112;47;112;107;103;47;108;105;98;47;97;108;116;46;106;115], FJs [ISet 1 1]);
+             ([47;97;112;112;47;112;107;103;47;108;105;98;47;105;110;100;101;120;46;106;115], FJs [ISet 2 2])] in
+  let nr := {| n_registry := []; n_global := []; n_core := [] |} in
+  let app := parse [47;97;112;112] in
+  let st := run_tops fs nr 5 init_state [(app, [46;47;112;107;103;47;108;105;98])] in
+  let '(st', x) := require_ fs nr 5 st app [46;47;112;107;103] in
+  match x with ROk m => file_owner st' m = Some [47;97;112;112;47;112;107;103;47;108;105;98;47;105;110;100;101;120;46;106;115] | _ => False end /\
+  cache_get (resolved_cache st) [47;97;112;112;47;112;107;103;47;108;105;98] <> None.
+Proof. vm_compute. split; [reflexivity|discriminate]. Qed.
 
 (* a bare name is searched only in node_modules directories, never as a relative file *)
 Theorem C02_bare_never_relative : forall y d,
